@@ -72,7 +72,7 @@ func Gen() *rapid.Generator[Case] {
 		for i := 0; i < nr; i++ {
 			c.Readers = append(c.Readers, tbl.ROpts{
 				Loader:     rapid.SampledFrom(loaders).Draw(t, "loader"),
-				ReadBuf:    rapid.SampledFrom([]int{8, 64, 4096, 4 << 20}).Draw(t, "rbuf"),
+				ReadBuf:    rapid.SampledFrom([]int{1, 3, 8, 64, 4096, 4 << 20}).Draw(t, "rbuf"),
 				SkipLoad:   rapid.IntRange(0, 3).Draw(t, "skipload") == 0,
 				CheckReads: rapid.Bool().Draw(t, "checkreads"),
 			})
